@@ -18,6 +18,12 @@ let scripted (ops : string list) : string =
         else if String.length op > 2 && String.sub op 0 2 = "HX" then step (SHClose (num op 2))
         else match op.[0] with
           | 'B' -> (match split_on ':' (String.sub op 1 (String.length op - 1)) with
+              | [c; "e"] ->
+                (* eager completion: the handler runs as soon as the caller has registered and waits *)
+                let sid = !s.c_next in
+                let before = !s.c_shut || !s.c_refuse in
+                step (SBegin (n_of_int (int_of_string c)));
+                if not before then step (SHConnect sid)
               | c :: _ -> step (SBegin (n_of_int (int_of_string c)))
               | [] -> ())
           | 'W' -> step (SWake (num op 1))
